@@ -3114,4 +3114,333 @@ theorem add_accurate (prec : ℕ) (hp : 2 ≤ prec) (u v : F) (hu : OpWF u) (hv 
         rwa [toQ_neg_size v hv, sub_neg_eq_add] at this
 
 
+/-! ### format rules of the exact functions -/
+
+theorem OpWF.ne_nil {u : F} (hu : OpWF u) (h0 : u.size ≠ 0) : u.d ≠ [] :=
+  fun h => h0 (by have := hu.2.1; rw [h] at this; simp at this; omega)
+
+/-- keeping the top n ≥ 1 limbs of a non-zero operand, any sign, same exponent: well formed if n ≤ prec+1 -/
+theorem WF_top (prec n : ℕ) (hn1 : 1 ≤ n) (hn : n ≤ prec + 1) (u : F) (hu : OpWF u) (h0 : u.size ≠ 0)
+    (c : Prop) [Decidable c] (e : ℤ) :
+    WF ⟨prec, if c then ((top n u.d).length : ℤ) else -((top n u.d).length : ℤ), e, top n u.d⟩ := by
+  obtain ⟨t1, t2, t3, t4, _⟩ := top_facts n hn1 u.d hu.1 (hu.ne_nil h0) hu.2.2.1
+  exact WF_mk t1 t3 (by rw [t4]; omega) (fun h => absurd h t2)
+
+theorem abs_wf (prec : ℕ) (rIsU : Bool) (u : F) (hu : OpWF u) (hau : rIsU = true → u.d.length ≤ prec + 1) :
+    WF (Mpf.abs prec rIsU u) := by
+  unfold Mpf.abs
+  cases rIsU
+  · simp only [Bool.false_eq_true, if_false]
+    by_cases h0 : u.size = 0
+    · rw [hu.d_nil h0]
+      have he := hu.2.2.2 h0
+      simp only [top, List.length_nil, List.drop_nil, he]
+      exact WF_zero prec
+    · have := WF_top prec (prec + 1) (by omega) (le_refl _) u hu h0 True u.exp
+      simpa using this
+  · simp only [if_true]
+    have hna : ((u.size.natAbs : ℕ) : ℤ).natAbs = u.size.natAbs := Int.natAbs_natCast _
+    refine ⟨hu.1, ?_, ?_, hu.2.2.1, fun h => hu.2.2.2 ?_⟩
+    · show u.d.length = ((u.size.natAbs : ℕ) : ℤ).natAbs
+      rw [hna]; exact hu.2.1
+    · show ((u.size.natAbs : ℕ) : ℤ).natAbs ≤ prec + 1
+      rw [hna, ← hu.2.1]; exact hau rfl
+    · have : ((u.size.natAbs : ℕ) : ℤ) = 0 := h
+      omega
+
+theorem neg_wf (prec : ℕ) (hp : 1 ≤ prec) (rIsU : Bool) (u : F) (hu : OpWF u) (hau : rIsU = true → u.d.length ≤ prec + 1) :
+    WF (neg prec rIsU u) := by
+  cases rIsU
+  · rw [neg_eq_set]; exact (set_spec prec hp _ (OpWF_neg_size u hu)).1
+  · unfold neg; simp only [if_true]
+    refine ⟨hu.1, by simp [hu.2.1], by simp; rw [← hu.2.1]; exact hau rfl, hu.2.2.1, fun h => hu.2.2.2 (by simpa using h)⟩
+
+theorem trunc_wf (prec : ℕ) (u : F) (hu : OpWF u) : WF (trunc prec u) := by
+  unfold trunc
+  by_cases h : u.size = 0 ∨ u.exp ≤ 0
+  · rw [if_pos h]; exact WF_zero prec
+  · rw [if_neg h]
+    have h0 : u.size ≠ 0 := fun h' => h (Or.inl h')
+    have hn := List.length_pos_of_ne_nil (hu.ne_nil h0)
+    have hpos : 1 ≤ min (min u.d.length u.exp.toNat) (prec + 1) := by omega
+    have hlen : (top (min (min u.d.length u.exp.toNat) (prec + 1)) u.d).length = min (min u.d.length u.exp.toNat) (prec + 1) := by
+      rw [top_length]; omega
+    have := WF_top prec _ hpos (by omega) u hu h0 (u.size ≥ 0) u.exp
+    rw [hlen] at this
+    exact this
+
+theorem ceilOrFloor_wf (prec : ℕ) (u : F) (hu : OpWF u) (dir : ℤ) (hdir : dir = 1 ∨ dir = -1) :
+    WF (ceilOrFloor prec u dir) := by
+  unfold ceilOrFloor
+  by_cases h0 : u.size = 0
+  · rw [if_pos h0]; exact WF_zero prec
+  rw [if_neg h0]
+  by_cases he : u.exp ≤ 0
+  · rw [if_pos he]
+    by_cases hs : (decide (u.size < 0) != decide (dir < 0)) = true
+    · rw [if_pos hs]; exact WF_zero prec
+    · rw [if_neg hs]
+      refine ⟨Limbs_cons.mpr ⟨one_lt_B, Limbs_nil⟩, ?_, ?_, by simp, ?_⟩ <;> rcases hdir with h | h <;> subst h <;> simp
+  · rw [if_neg he]
+    simp only
+    have hn := List.length_pos_of_ne_nil (hu.ne_nil h0)
+    set asize := min (min u.d.length u.exp.toNat) (prec + 1) with has
+    have hpos : 1 ≤ asize := by omega
+    have hle : asize ≤ prec + 1 := by omega
+    obtain ⟨t1, t2, t3, t4, _⟩ := top_facts asize hpos u.d hu.1 (hu.ne_nil h0) hu.2.2.1
+    have hlen : (top asize u.d).length = asize := by rw [t4]; omega
+    have hbase : WF ⟨prec, if u.size ≥ 0 then (asize : ℤ) else -(asize : ℤ), u.exp, top asize u.d⟩ := by
+      have := WF_top prec asize hpos hle u hu h0 (u.size ≥ 0) u.exp
+      rwa [hlen] at this
+    by_cases hc : (decide (u.size < 0) == decide (dir < 0)) = true ∧ (u.d.take (u.d.length - asize)).any (· != 0) = true
+    · rw [if_pos hc]
+      by_cases hcy : (val (top asize u.d) + 1) / B ^ asize ≠ 0
+      · rw [if_pos hcy]
+        refine ⟨Limbs_cons.mpr ⟨one_lt_B, Limbs_nil⟩, ?_, ?_, by simp, ?_⟩ <;> by_cases hs : u.size ≥ 0 <;> simp [hs]
+      · rw [if_neg hcy]
+        have hs : val (top asize u.d) + 1 < B ^ asize := by
+          have := (Nat.div_eq_zero_iff.mp (not_not.mp hcy)); have := Bpow_pos asize; omega
+        have hl := toLimbs_length asize (val (top asize u.d) + 1)
+        have hne : toLimbs asize (val (top asize u.d) + 1) ≠ [] := by
+          intro h; rw [h] at hl; simp at hl; omega
+        have ht : (toLimbs asize (val (top asize u.d) + 1)).getLast? ≠ some 0 := by
+          apply top_ne_zero_of_val_ge _ (Limbs_toLimbs _ _) hne
+          rw [hl, val_toLimbs_of_lt hs]
+          have := val_ge_of_top _ t2 t3
+          rw [hlen] at this; omega
+        have := @WF_mk prec (u.size ≥ 0) _ u.exp _ (Limbs_toLimbs asize (val (top asize u.d) + 1)) ht (by rw [hl]; exact hle)
+          (fun h => absurd h hne)
+        rwa [hl] at this
+    · rw [if_neg hc]; exact hbase
+
+theorem floor_wf (prec : ℕ) (u : F) (hu : OpWF u) : WF (floor prec u) := ceilOrFloor_wf prec u hu (-1) (Or.inr rfl)
+theorem ceil_wf (prec : ℕ) (u : F) (hu : OpWF u) : WF (ceil prec u) := ceilOrFloor_wf prec u hu 1 (Or.inl rfl)
+
+theorem mul_2exp_wf (prec : ℕ) (hp : 1 ≤ prec) (u : F) (e : ℕ) (hu : OpWF u) : WF (mul_2exp prec u e) := by
+  unfold mul_2exp
+  by_cases h0 : u.size = 0
+  · rw [if_pos h0]; exact WF_zero prec
+  rw [if_neg h0]
+  by_cases he : e % 64 = 0
+  · rw [if_pos he]; exact WF_top prec (prec + 1) (by omega) (le_refl _) u hu h0 (u.size ≥ 0) _
+  · rw [if_neg he]
+    obtain ⟨t1, t2, t3, t4, _⟩ := top_facts prec hp u.d hu.1 (hu.ne_nil h0) hu.2.2.1
+    obtain ⟨s1, s2, s3, s4, _⟩ := shiftUp_spec (top prec u.d) (e % 64) t1 t2 t3 (Nat.mod_lt _ (by norm_num))
+    dsimp only
+    generalize shiftUp (top prec u.d) (e % 64) = r at *
+    obtain ⟨rd, adj⟩ := r
+    simp only at s1 s2 s3 s4 ⊢
+    exact WF_mk s1 s2 (by rw [s3, t4]; omega) (fun h => by rw [h] at s3; simp at s3; have := List.length_pos_of_ne_nil t2; omega)
+
+theorem div_2exp_wf (prec : ℕ) (hp : 1 ≤ prec) (u : F) (e : ℕ) (hu : OpWF u) : WF (div_2exp prec u e) := by
+  unfold div_2exp
+  by_cases h0 : u.size = 0
+  · rw [if_pos h0]; exact WF_zero prec
+  rw [if_neg h0]
+  by_cases he : e % 64 = 0
+  · rw [if_pos he]; exact WF_top prec (prec + 1) (by omega) (le_refl _) u hu h0 (u.size ≥ 0) _
+  · rw [if_neg he]
+    obtain ⟨t1, t2, t3, t4, _⟩ := top_facts prec hp u.d hu.1 (hu.ne_nil h0) hu.2.2.1
+    have hc : e % 64 < 64 := Nat.mod_lt _ (by norm_num)
+    obtain ⟨s1, s2, s3, s4, _⟩ := shiftUp_spec (top prec u.d) (64 - e % 64) t1 t2 t3 (by omega)
+    dsimp only
+    generalize shiftUp (top prec u.d) (64 - e % 64) = r at *
+    obtain ⟨rd, adj⟩ := r
+    simp only at s1 s2 s3 s4 ⊢
+    exact WF_mk s1 s2 (by rw [s3, t4]; omega) (fun h => by rw [h] at s3; simp at s3; have := List.length_pos_of_ne_nil t2; omega)
+
+
+/-! ### mul_ui -/
+
+theorem accurate_of_nat (prec : ℕ) (r : F) (σ : ℚ) (hσ : σ = 1 ∨ σ = -1) (R N : ℕ) (s : ℚ) (hs : 0 < s)
+    (hwf : WF r) (hr : toQ r = σ * (R : ℚ) * s) (hN : 0 < N) (hle : R ≤ N) (h : (N - R) * B ^ (prec - 1) < 4 * N) :
+    Accurate prec r (σ * (N : ℚ) * s) := by
+  refine ⟨hwf, fun h0 => ?_, fun _ => by rw [hr]; exact err_of_nat σ hσ R N s hs prec hle h⟩
+  exfalso
+  have : (0 : ℚ) < (N : ℚ) := by exact_mod_cast hN
+  rcases hσ with h1 | h1 <;> rw [h1] at h0 <;> nlinarith
+
+theorem mul_ui_spec (prec : ℕ) (hp : 1 ≤ prec) (u : F) (w : ℕ) (hu : OpWF u) (hw : w < B) :
+    Accurate prec (mul_ui prec u w) (toQ u * w) ∧ (u.d.length ≤ prec → toQ (mul_ui prec u w) = toQ u * w) := by
+  unfold mul_ui
+  by_cases hz : w = 0 ∨ u.size = 0
+  · rw [if_pos hz]
+    have hE : toQ u * (w : ℚ) = 0 := by
+      rcases hz with h | h
+      · rw [h]; simp
+      · rw [toQ_of_size_zero (hu.d_nil h)]; simp
+    rw [hE]
+    exact ⟨⟨WF_zero prec, fun _ => toQ_zero prec, fun h => absurd rfl h⟩, fun _ => toQ_zero prec⟩
+  · rw [if_neg hz]
+    have hw0 : w ≠ 0 := fun h => hz (Or.inl h)
+    have h0 : u.size ≠ 0 := fun h => hz (Or.inr h)
+    have hne := hu.ne_nil h0
+    have hlen := List.length_pos_of_ne_nil hne
+    have hU1 := val_ge_of_top u.d hne hu.2.2.1
+    have hU2 := val_lt u.d hu.1
+    simp only
+    set len := u.d.length with hl
+    set excess := len - prec with hex
+    set n := (if len > prec then prec else len) with hn
+    have hnl : n + excess = len := by rw [hn, hex]; split <;> omega
+    have hn1 : 1 ≤ n := by rw [hn]; split <;> omega
+    have hnp : n ≤ prec := by rw [hn]; split <;> omega
+    set N := val u.d * w with hN
+    have hN1 : B ^ (len - 1) ≤ N := le_trans hU1 (Nat.le_mul_of_pos_right _ (Nat.pos_of_ne_zero hw0))
+    have hN2 : N < B ^ (len + 1) := by
+      rw [pow_succ]; exact Nat.mul_lt_mul'' hU2 hw
+    set t := N / B ^ excess with ht
+    have ht1 : t < B ^ (n + 1) := by
+      rw [ht, Nat.div_lt_iff_lt_mul (Bpow_pos _), ← pow_add]
+      rwa [show n + 1 + excess = len + 1 by omega]
+    have ht0 : B ^ (n - 1) ≤ t := by
+      rw [ht, Nat.le_div_iff_mul_le (Bpow_pos _), ← pow_add]
+      rwa [show n - 1 + excess = len - 1 by omega]
+    have htle : t * B ^ excess ≤ N := Nat.div_mul_le_self N _
+    have htgt : N < (t + 1) * B ^ excess := by
+      rw [ht]; exact (Nat.div_lt_iff_lt_mul (Bpow_pos _)).mp (Nat.lt_succ_self _)
+    have hcyB : t / B ^ n < B := by
+      rw [Nat.div_lt_iff_lt_mul (Bpow_pos _), mul_comm, ← pow_succ]; exact ht1
+    have hsplit : val (toLimbs n t) + B ^ n * (t / B ^ n) = t := by rw [val_toLimbs]; exact Nat.mod_add_div _ _
+    clear_value N t n excess len
+    -- the result limbs
+    have key : ∀ (rd : List Nat) (c : ℕ), c ≤ 1 → Limbs rd → rd.getLast? ≠ some 0 → rd.length = n + c → val rd = t →
+        Accurate prec ⟨prec, if u.size ≥ 0 then (rd.length : ℤ) else -(rd.length : ℤ), u.exp + (c : ℤ), rd⟩ (toQ u * w) ∧
+        (len ≤ prec → toQ ⟨prec, if u.size ≥ 0 then (rd.length : ℤ) else -(rd.length : ℤ), u.exp + (c : ℤ), rd⟩ = toQ u * w) := by
+      intro rd c hc1 hl1 hl2 hl3 hl4
+      have hσ : (if u.size ≥ 0 then (1 : ℚ) else -1) = 1 ∨ (if u.size ≥ 0 then (1 : ℚ) else -1) = -1 := by
+        by_cases h : u.size ≥ 0 <;> simp [h]
+      have hne' : rd ≠ [] := by intro h; rw [h] at hl3; simp at hl3; omega
+      have hwf := @WF_mk prec (u.size ≥ 0) _ (u.exp + (c : ℤ)) rd hl1 hl2 (by omega) (fun h => absurd h hne')
+      have hq : toQ ⟨prec, if u.size ≥ 0 then (rd.length : ℤ) else -(rd.length : ℤ), u.exp + (c : ℤ), rd⟩
+          = (if u.size ≥ 0 then (1 : ℚ) else -1) * ((t * B ^ excess : ℕ) : ℚ) * (B : ℚ) ^ (u.exp - (len : ℤ)) := by
+        rw [toQ_mk, hl4, hl3]
+        have : u.exp + (c : ℤ) - ((n + c : ℕ) : ℤ) = (excess : ℤ) + (u.exp - (len : ℤ)) := by omega
+        rw [this, zpow_add₀ Bq_ne, zpow_natCast]; push_cast; ring
+      have hE : toQ u * (w : ℚ) = (if u.size ≥ 0 then (1 : ℚ) else -1) * ((N : ℕ) : ℚ) * (B : ℚ) ^ (u.exp - (len : ℤ)) := by
+        rw [toQ_def', hN, ← hl]; push_cast; ring
+      rw [hE]
+      refine ⟨accurate_of_nat prec _ _ hσ _ _ _ (zpow_pos Bq_pos _) hwf hq (lt_of_lt_of_le (Bpow_pos _) hN1) htle ?_, fun hle => ?_⟩
+      · rcases Nat.eq_zero_or_pos excess with h | h
+        · rw [h, pow_zero, mul_one] at htle htgt ⊢
+          have : N - t = 0 := by omega
+          rw [this, zero_mul]; have := Bpow_pos (len - 1); omega
+        · have hnp' : n = prec := by omega
+          have h1 : N - t * B ^ excess < B ^ excess := by
+            have : (t + 1) * B ^ excess = t * B ^ excess + B ^ excess := by ring
+            omega
+          have h2 : B ^ excess * B ^ (prec - 1) = B ^ (len - 1) := by rw [← pow_add]; congr 1; omega
+          calc (N - t * B ^ excess) * B ^ (prec - 1) < B ^ excess * B ^ (prec - 1) :=
+                Nat.mul_lt_mul_of_pos_right h1 (Bpow_pos _)
+            _ = B ^ (len - 1) := h2
+            _ ≤ N := hN1
+            _ ≤ 4 * N := by omega
+      · have hex0 : excess = 0 := by omega
+        rw [hq, hex0, pow_zero, mul_one]
+        rw [hex0, pow_zero, mul_one] at htle htgt
+        have : t = N := by omega
+        rw [this]
+    by_cases hcy : t / B ^ n ≠ 0
+    · simp only [hcy, ne_eq, not_false_eq_true, if_true]
+      have hlast : (toLimbs n t ++ [t / B ^ n]).getLast? = some (t / B ^ n) := by simp
+      have := key (toLimbs n t ++ [t / B ^ n]) 1 (le_refl _)
+        (Limbs_append.mpr ⟨Limbs_toLimbs _ _, Limbs_cons.mpr ⟨hcyB, Limbs_nil⟩⟩)
+        (by rw [hlast]; exact fun h => hcy (Option.some.inj h)) (by simp [toLimbs_length]) (by rw [val_append, toLimbs_length]; simpa using hsplit)
+      simpa using this
+    · simp only [hcy, if_false]
+      have hc0 : t / B ^ n = 0 := not_not.mp hcy
+      have hlt : t < B ^ n := by
+        rcases Nat.div_eq_zero_iff.mp hc0 with h | h
+        · exact absurd h (ne_of_gt (Bpow_pos n))
+        · exact h
+      have hv : val (toLimbs n t) = t := val_toLimbs_of_lt hlt
+      have hne' : toLimbs n t ≠ [] := by
+        intro h; have := toLimbs_length n t; rw [h] at this; simp at this; omega
+      have := key (toLimbs n t) 0 (by omega) (Limbs_toLimbs _ _)
+        (by apply top_ne_zero_of_val_ge _ (Limbs_toLimbs _ _) hne'; rw [toLimbs_length, hv]; exact ht0)
+        (by simp [toLimbs_length]) hv
+      simpa using this
+
+
+/-! ### set_d -/
+
+/-- mpf_set_d on a normal binary64 (biased exponent 1..2046): exactly ±(2^52 + man)·2^(bexp − 1075), well formed. -/
+theorem set_d_normal (prec : ℕ) (hp : 1 ≤ prec) (bits sign bexp man : ℕ)
+    (h1 : bits / 2 ^ 63 % 2 = sign) (h2 : bits / 2 ^ 52 % 2 ^ 11 = bexp) (h3 : bits % 2 ^ 52 = man)
+    (hb1 : 1 ≤ bexp) (hb2 : bexp ≤ 2046) :
+    ∃ r, set_d prec bits = .ok r ∧ WF r ∧
+      toQ r = (if sign = 1 then -1 else 1) * ((2 ^ 52 + man : ℕ) : ℚ) * (2 : ℚ) ^ ((bexp : ℤ) - 1075) := by
+  have hm : man < 2 ^ 52 := by rw [← h3]; exact Nat.mod_lt _ (by norm_num)
+  have hs : sign ≤ 1 := by rw [← h1]; exact Nat.lt_succ_iff.mp (Nat.mod_lt _ (by norm_num))
+  unfold set_d
+  dsimp only
+  simp only [h1, h2, h3]
+  rw [if_neg (show ¬ bexp = 0x7FF by omega), if_neg (show ¬ (bexp = 0 ∧ man = 0) by omega), if_neg (show ¬ bexp = 0 by omega)]
+  dsimp only
+  set manl := 2 ^ 63 + man * 2 ^ 11 with hmanl
+  have hmB : manl < B := by rw [hmanl, B_eq]; omega
+  have hm63 : 2 ^ 63 ≤ manl := by rw [hmanl]; omega
+  obtain ⟨q, sc, hq, hsc⟩ : ∃ q sc : ℕ, (bexp : ℤ) - 1022 + 64 * 64 = 64 * (q : ℤ) + (sc : ℤ) ∧ sc < 64 := by
+    refine ⟨(bexp + 3074) / 64, (bexp + 3074) % 64, ?_, Nat.mod_lt _ (by norm_num)⟩
+    have := Nat.div_add_mod (bexp + 3074) 64
+    omega
+  have hsc' : (((bexp : ℤ) - 1022 + 64 * 64) % 64).toNat = sc := by omega
+  have hq' : ((bexp : ℤ) - 1022 + 64 * 64) / 64 - 64 + 1 = (q : ℤ) - 63 := by omega
+  rw [hsc', hq']
+  have hval : (((2 ^ 52 + man : ℕ) : ℚ)) * (2 : ℚ) ^ ((bexp : ℤ) - 1075) = (manl : ℚ) * (2 : ℚ) ^ ((bexp : ℤ) - 1086) := by
+    rw [hmanl]; push_cast
+    have : (2 : ℚ) ^ ((bexp : ℤ) - 1075) = 2 ^ 11 * (2 : ℚ) ^ ((bexp : ℤ) - 1086) := by
+      rw [← zpow_natCast (2 : ℚ) 11, ← zpow_add₀ (by norm_num : (2 : ℚ) ≠ 0)]; congr 1; omega
+    rw [this]; ring
+  have hσ : (if (if sign = 1 then (-2 : ℤ) else 2) < 0 then (-1 : ℚ) else 1) = (if sign = 1 then -1 else 1) := by
+    by_cases h : sign = 1 <;> simp [h]
+  by_cases hs0 : sc ≠ 0
+  · rw [if_pos hs0]
+    refine ⟨_, rfl, ?_, ?_⟩
+    · have hhi : 1 ≤ manl / 2 ^ (64 - sc) := by
+        rw [Nat.le_div_iff_mul_le (Nat.two_pow_pos _)]
+        calc 1 * 2 ^ (64 - sc) ≤ 2 ^ 63 := by rw [one_mul]; exact Nat.pow_le_pow_right (by norm_num) (by omega)
+          _ ≤ manl := hm63
+      have hhiB : manl / 2 ^ (64 - sc) < B := lt_of_le_of_lt (Nat.div_le_self _ _) hmB
+      refine ⟨Limbs_cons.mpr ⟨Nat.mod_lt _ B_pos, Limbs_cons.mpr ⟨hhiB, Limbs_nil⟩⟩, ?_, ?_, ?_, ?_⟩
+      · by_cases h : sign = 1 <;> simp [h]
+      · by_cases h : sign = 1 <;> simp [h] <;> omega
+      · simp only [List.getLast?_cons_cons, List.getLast?_singleton, ne_eq, Option.some.injEq]; omega
+      · by_cases h : sign = 1 <;> simp [h]
+    · unfold toQ
+      simp only [hσ, val_cons, val_nil, mul_zero, add_zero, List.length_cons, List.length_nil]
+      rw [mul_assoc, mul_assoc, hval]
+      congr 1
+      -- lo + B·hi = manl · 2^sc
+      have hsplit : (manl * 2 ^ sc) % B + B * (manl / 2 ^ (64 - sc)) = manl * 2 ^ sc := by
+        have hB : B = 2 ^ (64 - sc) * 2 ^ sc := by unfold B; rw [← pow_add]; congr 1; omega
+        have hdiv : manl * 2 ^ sc / B = manl / 2 ^ (64 - sc) := by
+          rw [hB, Nat.mul_div_mul_right _ _ (Nat.two_pow_pos sc)]
+        rw [← hdiv]; exact Nat.mod_add_div _ _
+      have : (((manl * 2 ^ sc) % B + B * (manl / 2 ^ (64 - sc)) : ℕ) : ℚ) = (manl : ℚ) * 2 ^ sc := by
+        rw [hsplit]; push_cast; ring
+      push_cast at this ⊢
+      have e64 : ((2 : ℚ) ^ 64) = (2 : ℚ) ^ (64 : ℤ) := by norm_num
+      rw [this, Bq_eq, e64, ← zpow_mul, mul_assoc, ← zpow_natCast (2 : ℚ) sc, ← zpow_add₀ (by norm_num : (2 : ℚ) ≠ 0)]
+      congr 2
+      omega
+  · rw [if_neg hs0]
+    have hsc0 : sc = 0 := not_not.mp hs0
+    refine ⟨_, rfl, ?_, ?_⟩
+    · refine ⟨Limbs_cons.mpr ⟨B_pos, Limbs_cons.mpr ⟨hmB, Limbs_nil⟩⟩, ?_, ?_, ?_, ?_⟩
+      · by_cases h : sign = 1 <;> simp [h]
+      · by_cases h : sign = 1 <;> simp [h] <;> omega
+      · simp only [List.getLast?_cons_cons, List.getLast?_singleton, ne_eq, Option.some.injEq]; omega
+      · by_cases h : sign = 1 <;> simp [h]
+    · unfold toQ
+      simp only [hσ, val_cons, val_nil, mul_zero, add_zero, List.length_cons, List.length_nil, zero_add]
+      rw [mul_assoc, mul_assoc, hval]
+      congr 1
+      push_cast
+      have e64 : ((2 : ℚ) ^ 64) = (2 : ℚ) ^ (64 : ℤ) := by norm_num
+      rw [Bq_eq, e64, ← zpow_mul, mul_comm ((2 : ℚ) ^ (64 : ℤ)), mul_assoc, ← zpow_add₀ (by norm_num : (2 : ℚ) ≠ 0)]
+      congr 2
+      omega
+
+
 end Mpir.Mpf
